@@ -427,8 +427,10 @@ class Check:
 
     def finish(self):
         wall = time.time() - self.t0
-        os.makedirs(os.path.join(VERIF, "evidence"), exist_ok=True)
-        os.makedirs(os.path.join(VERIF, "replays"), exist_ok=True)
+        # development runs against a scratch worktree (tools/try_wt.sh) keep their evidence away from the committed one
+        OUT = os.environ.get("VERIF_EVIDENCE_DIR") or VERIF
+        os.makedirs(os.path.join(OUT, "evidence"), exist_ok=True)
+        os.makedirs(os.path.join(OUT, "replays"), exist_ok=True)
         cov = dict(evaluations=self.evaluations, distinct_nontrivial=len(self.distinct), rule=self.rule,
                    samples=self.samples or ["(none)"], states=self.states, transitions=self.transitions,
                    traces_validated_against_impl=self.traces, exhaustive=self.exhaustive,
@@ -437,7 +439,7 @@ class Check:
         cov.update(self.extra)
         ev = dict(property_id=self.pid, tier=self.tier, seed=self.seed, level=self.level, coverage=cov,
                   assumptions=self.assumptions, wall_s=round(wall, 1), violations=len(self.violations))
-        with open(os.path.join(VERIF, "evidence", self.pid + ".json"), "w") as f:
+        with open(os.path.join(OUT, "evidence", self.pid + ".json"), "w") as f:
             json.dump(ev, f, indent=1, default=str)
             f.write("\n")
         for k, v in sorted(self.known_hit.items()):
@@ -449,7 +451,7 @@ class Check:
                 if sig in seen or rep is None:
                     continue
                 seen.add(sig)
-                path = os.path.join(VERIF, "replays", "%s-%s.json" % (self.pid, re.sub(r"[^A-Za-z0-9_.-]+", "_", sig)[:80]))
+                path = os.path.join(OUT, "replays", "%s-%s.json" % (self.pid, re.sub(r"[^A-Za-z0-9_.-]+", "_", sig)[:80]))
                 with open(path, "w") as f:
                     json.dump(dict(property=self.pid, signature=sig, description=desc, replay=rep), f, indent=1, default=str)
                 print("VIOLATION property=%s replay=%s" % (self.pid, path))
